@@ -638,8 +638,9 @@ class Array(metaclass=MetaArray):
 
     def _update(self, value):
         if is_integer(value):
+            # re-initialize from the length: only the one a 1-D array has
             ll = value
-            compatible = len(self) == ll
+            compatible = len(self._shape) == 1 and len(self) == ll
         else:
             ll = len(value)
             # compare shapes: len() of a nested value only counts its rows
